@@ -31,3 +31,5 @@ reg('C14', 'propchecks.relprops', 'proof', T1[:1], [ASCII, DEPTH, CORR])
 reg('C16', 'propchecks.relprops', 'proof', T1[:1], [ASCII, DEPTH, CORR])
 reg('C17', 'propchecks.relprops', 'proof', T6 + [('Bashlex.parse_strict_irrelevant', QC), ('Bashlex.parse_proceed_irrelevant', QC),
       ('Bashlex.parsesingle_strict_irrelevant', QC), ('Bashlex.parsesingle_proceed_irrelevant', QC)], [ASCII, DEPTH, CORR])
+
+reg('C11', 'propchecks.c11', 'proof', T1[:1] + [('Bashlex.Q.run_touched_irrelevant', QC), ('Bashlex.History.results_eq_solo', QC)], [ASCII, DEPTH, CORR])
